@@ -49,6 +49,39 @@ CHECKS.update({
     ),
 })
 
+CHECKS.update({
+    "C03": (
+        "construction attempts recorded at the four entry points (constructor, dict, attributes, JSON) judged by a table-driven reference validity predicate and normal form; exhaustive grid of minimal shapes, mutation operators on valid bases; normal-form walker over returned instances",
+        "accept <=> reference predicate, identical outcome on all four paths, rejection type, class/tag agreement, normal form and JSON re-validation, on every attempted structure.",
+        "Numeric (int/float, finite) coordinate structures only; trusts the 40-line reference predicate written from the statement.",
+        "DESIGN.md §4 C03",
+    ),
+    "C05": (
+        "icontract postconditions on compute_bounds, geometry_to_shapely, compute_geometric_features, get_geometry_point against an independent pure-Python flatten of the coordinates (exact equality)",
+        "Every return of the four functions observed in the run agrees exactly with min/max over the flattened coordinates, the stated feature formulas and the stated anchors; centroid / point-on-surface inside the bounds.",
+        "Invalid polygons whose holes leave the shell are not judged; shapely used only for validity and coordinate extraction.",
+        "DESIGN.md §4 C05",
+    ),
+    "C06": (
+        "icontract postcondition on compute_affinity (range, closed-form box IoU, time-extent IoU, time-disjoint => 0) plus relational re-invocations of the real function (argument swap, self, common time shift); all 81 type pairs x placement x buffer class",
+        "Every compute_affinity return in the run satisfies the stated range and closed forms; symmetry, self-affinity and shift invariance observed by re-invocation.",
+        "Valid geometries; positive buffers when points/lines take part; buffered extents of points/lines are those of the library's own buffer_geometry; tolerances 1e-9 / 1e-7.",
+        "DESIGN.md §4 C06",
+    ),
+    "C07": (
+        "wrapper materialising match_geometries + independent brute-force (subset DP) optimal assignment up to 7x7 and exact re-invocation of compute_affinity per reported pair",
+        "Every materialised matching covers each index once, pairs only positive affinities, reports the pair's affinity exactly and attains the brute-force optimum.",
+        "Optimality not judged above 7x7; valid geometries.",
+        "DESIGN.md §4 C07",
+    ),
+    "C11": (
+        "wrapper on buffer_geometry: C03 validity/normal-form walker on the result, exact closed forms for TimeStamp/TimeInterval/BoundingBox, containment and bounds extension via shapely in buffer-normalised space, monotonicity by re-invocation with larger buffers",
+        "Every buffer_geometry return in the run is valid, contains the original, extends the bounds by the requested buffers (clipped), and is exactly the widened interval/box for the closed-form types; three mechanisms are recorded as open known findings.",
+        "32-gon round caps (0.5 % band); buffers in (0, 1e-6) excluded; open findings keyed by mechanism predicate (zero buffer on a domain edge, coordinate/buffer >= 1e9, mitre corners).",
+        "DESIGN.md §4 C11",
+    ),
+})
+
 NOT_YET = {}
 
 
